@@ -324,7 +324,7 @@ def _parse_header_line(line: str) -> Tuple[str, str]:
 def _parse_n_ballots(value: str) -> Optional[int]:
     if value == 'blt':
         return None
-    elif value.isdigit():
+    elif value.isdecimal():
         return int(value)
     else:
         raise STVParseError(f'invalid ballot count: {value!r}')
@@ -357,7 +357,7 @@ def _parse_multiplier(mult: str, line_i: int) -> Number:
     try:
         if '/' in mult:
             return fractions.Fraction(mult)
-        elif mult.isdigit():
+        elif mult.isdecimal():
             return int(mult)
         elif '.' in mult or 'E' in mult.upper():
             weight = decimal.Decimal(mult)
@@ -396,7 +396,7 @@ def _load_ordered_votes(lines: Iterable[Tuple[Number, List[str]]],
         mult, items = line_cont
         cand_order = []
         for item_i, item in enumerate(items):
-            if item.isdigit():
+            if item.isdecimal():
                 if item_i >= len(candidates):
                     raise STVParseError(f'more items than candidates'
                                         f' on ballot line {line_i}')
@@ -474,7 +474,7 @@ def _create_evaluator(method: Optional[str] = None,
         if method != 'blt':
             raise STVParseError('quota setting not found')
         # otherwise, we will not need quota_function
-    elif quota.isdigit():
+    elif quota.isdecimal():
         quota_function = votelib.component.quota.constant(int(quota))
     else:
         try:
@@ -501,7 +501,7 @@ def _add_tiebreaker(evaluator: votelib.evaluate.Evaluator,
                     ) -> votelib.evaluate.Evaluator:
     if random == 'non':
         tiebreaker = votelib.evaluate.auxiliary.CandidateNumberRanker()
-    elif random.isdigit():
+    elif random.isdecimal():
         tiebreaker = votelib.evaluate.auxiliary.Sortitor(seed=int(random))
     else:
         raise STVParseError('invalid random= parameter: {random!r}')
